@@ -251,6 +251,9 @@ func judgeC19(t *testing.T, sc C19Script) (key, msg string, res *c19Result) {
 	})
 	mu.Lock()
 	defer mu.Unlock()
+	if core.IsInconclusive(err) {
+		return "inconclusive", err.Error(), nil
+	}
 	if res == nil {
 		return "C19/hang", "the case could not finish: " + fmt.Sprint(err), nil
 	}
@@ -305,6 +308,10 @@ func TestC19(t *testing.T) {
 	rapid.Check(t, func(rt *rapid.T) {
 		sc := genC19(rt)
 		key, msg, res := judgeC19(t, sc)
+		if key == "inconclusive" {
+			st.AddInconclusive()
+			return
+		}
 		disc := false
 		for _, e := range sc.Events {
 			if e.K == "disconnect" {
